@@ -18,6 +18,7 @@ inductive Step where
   | symm (j : Nat)
   | trans (j k : Nat)
   | congr (a b : Term) (js : List Nat)
+  | bnot (j : Nat)          -- from `a = false` conclude `(not a) = true`, from `a = true` conclude `(not a) = false`
 deriving Inhabited
 
 /-- `js[i]` proves `as[i] = bs[i]`, pairwise, same length -/
@@ -30,6 +31,9 @@ def argsOk (derived : Array Eqn) : List Term → List Term → List Nat → Bool
   | _, _, _ => false
 
 /-- the equation established by one step, if the step is well-formed -/
+def tru : Term := .app .tru []
+def fls : Term := .app .fls []
+
 def stepEqn (hyps : Array Eqn) (derived : Array Eqn) : Step → Option Eqn
   | .hyp i => hyps[i]?
   | .refl t => some (t, t)
@@ -41,6 +45,9 @@ def stepEqn (hyps : Array Eqn) (derived : Array Eqn) : Step → Option Eqn
     | _, _ => none
   | .congr a b js => match a, b with
     | .app o1 as, .app o2 bs => if o1 = o2 && argsOk derived as bs js then some (a, b) else none
+  | .bnot j => match derived[j]? with
+    | some (a, c) => if c = fls then some (.app .not [a], tru) else if c = tru then some (.app .not [a], fls) else none
+    | none => none
 
 /-- run all steps; `none` if some step is ill-formed -/
 def runSteps (hyps : Array Eqn) : List Step → Array Eqn → Option (Array Eqn)
@@ -48,9 +55,6 @@ def runSteps (hyps : Array Eqn) : List Step → Array Eqn → Option (Array Eqn)
   | s :: r, d => match stepEqn hyps d s with
     | some e => runSteps hyps r (d.push e)
     | none => none
-
-def tru : Term := .app .tru []
-def fls : Term := .app .fls []
 
 /-- hypotheses contributed by the *negation* of a clause literal `(atom, neg)`:
 `¬(a = b)` in the clause gives `a = b`; `¬p` gives `p = true`; `p` gives `p = false` (Boolean atoms only) -/
